@@ -570,11 +570,32 @@ func (e *Engine) havocAllHeap(st *State, why string) {
 		names = append(names, n)
 	}
 	sort.Strings(names)
+	// objects created on this path and not yet shared cannot be changed by anybody else
+	var private []T
+	for _, f := range st.Fresh {
+		if f.So == SRef && !st.Escaped[f.S] {
+			private = append(private, f)
+		}
+	}
 	for _, n := range names {
 		if e.immutableRegion(n) {
 			continue
 		}
+		old := st.Heap[n]
 		e.havocRegion(st, n)
+		m := e.regions[n]
+		if old == "" || m == nil || len(private) == 0 || len(m.Args) == 0 || m.Args[0] != SRef {
+			continue
+		}
+		nw := st.Heap[n]
+		for _, f := range private {
+			if len(m.Args) == 1 {
+				st.assume(Eq(App(m.Res, nw, f), App(m.Res, old, f)))
+			} else if len(m.Args) == 2 {
+				k := T{"k!q", m.Args[1]}
+				st.assume(Forall([]T{k}, []T{App(m.Res, nw, f, k)}, Eq(App(m.Res, nw, f, k), App(m.Res, old, f, k))))
+			}
+		}
 	}
 }
 
@@ -582,6 +603,10 @@ func (e *Engine) havocAllHeap(st *State, why string) {
 // `frozen`, channel capacities, the Locker of a cond): a coarse havoc need not forget them.
 func (e *Engine) immutableRegion(name string) bool {
 	if name == "chan.cap" || name == "Cond.L" {
+		return true
+	}
+	// per-execution ghost counters (events of this goroutine) are not shared state
+	if strings.HasPrefix(name, "cnt:") || strings.HasPrefix(name, "cnt.") || name == "chan.sent" || name == "chan.recvd" {
 		return true
 	}
 	base := name
